@@ -55,7 +55,28 @@
    C10_idl_clauses_valid / C10_rdl_clauses_valid (lemmas and conflicts are DL-valid, tail false, head undefined) are exactly the
    lemma_ok / cnfl_ok obligations.  That is a change of SatCoreRun_Proofs' section hypothesis (th_propagate_ok) and of the
    proofs that carry Inv, not of the DL development.  `ub = false` stays as in the generic theorem (C07's no-UB theorem needs
-   the same contract).  LRA: C09_pop_restores_bounds has the same shape over EPush / EPop events and needs the analogous
+   the same contract).
+   GUARDED IDL NETWORK (proofs/SatCoreGuard_Proofs.v construction; smt/DlGuard.v, proofs/DlGuardChk_Proofs.v, proofs/SatCoreDl_Proofs.v):
+   C08_pop_after_assume_restores_sat_idl_guarded below has NO theory hypothesis.  It is a theorem about the network
+   sat_core + GUARDED idl_theory: the theory state carries K = dl_th_inv + "the constraint table is VD0" by typing, and an
+   answer of propagate(p) is passed on only when the decidable test idl_gp succeeds - one layer per level, and every lemma /
+   the conflict carries its certificate (the constraints of the negated literals, read backwards, are a closed chain of
+   negative weight - the explanation walk of idl_theory produces exactly that), ranges over existing variables, is false in
+   the passed assignment apart from a lemma's head, a conflict contains !p.  T = the assignments realised by an integer
+   valuation of the time points.  (V1) therefore is the SOUNDNESS OF THE CERTIFICATE CHECK (valid_chk_sound), not
+   C10_idl_clauses_valid: making K the semantic invariant `good` and the test "the embedded assignment is the told part of the
+   passed one" was started and abandoned inside the time box for a precise reason - `good` / hinv is preserved by push / pop /
+   propagate only under the protocol side conditions of wf_op (push with empty queue and no pending conflict, pop with empty
+   queue), while (P1-P4) quantify over ALL K-states; it needs (i) the passed assignment synchronised by model enqueues and a
+   lemma "good is invariant under queue reordering" (ngood_transfer gives it), (ii) a skipped-push counter so that th_push /
+   th_pop stay K-preserving when sat_core would push with a non-empty theory queue, (iii) the translation clause_valid ->
+   entails T (clause_valid_sem) and "an explanation has >= 2 literals" (from walk_total) - about 4 hours.  What C10
+   contributes here instead: on `good` states C10_idl_clauses_valid proves that the negative cycle EXISTS and that the tail is
+   false, i.e. that the validity / falsity parts of the test cannot fail; that the test ALWAYS succeeds on reachable states
+   (faithfulness: the guarded theory is the raw one) is the run-time obligation of the tie: tools/checks/c10.py evaluates the
+   extracted idl_gp on every theory propagation of every differential IDL history and reports `dl:guard-failed` (evidence key
+   guard_evaluations).  `ub = false` stays a premise: (W) lemmas_wl_ok speaks about the levels of the tail literals, which a
+   propagate call does not receive.  LRA: C09_pop_restores_bounds has the same shape over EPush / EPop events and needs the analogous
    adapter.  The propositional and the object-variable instances are complete, and the history-independence of the real mixed
    network (sat_core + lra + idl + rdl + ov) is checked on the implementation by tools/checks/c08.py. *)
 From Coq Require Import List Arith Bool ZArith Permutation Sorted.
@@ -65,6 +86,7 @@ From ORatio Require smt.DlDom smt.Dl smt.DlInst smt.DlAdapter proofs.DlOrd_Proof
   proofs.DlHist_Proofs proofs.DlIdl_Proofs proofs.DlRdl_Proofs.
 From ORatio Require smt.Lra smt.LraAdapter proofs.LraAdapter_Proofs.
 From ORatio Require Import proofs.SatCoreGuard_Proofs.
+From ORatio Require smt.DlGuard proofs.DlGuardChk_Proofs proofs.SatCoreDl_Proofs.
 Import ListNotations.
 
 (* the assignment vector is a function of the trail alone, after ANY history *)
@@ -369,3 +391,53 @@ Theorem C08_pop_after_assume_restores_under_the_relative_contract :
            (SatCore.pop (w_thpop thpop K K_pop) s').
 Proof. exact @w_pop_assume. Qed.
 Print Assumptions C08_pop_after_assume_restores_under_the_relative_contract.
+
+(* ---------------------------------------------------------------------------------------------- *)
+(* The network sat_core + GUARDED idl_theory (see the header): no hypothesis about the theory.  VD0 is the constraint table the
+   network was built with; w0 is any theory state with the structural invariant and that table (e.g. any state of the IDL
+   model reached by a history: C08_dl_model_states_are_legal_theory_states). *)
+Theorem C08_idl_guarded_theory_meets_the_contract : forall (sat : bool) (VD0 : list (nat * Dl.cstr Z)),
+  theory_contract (DlGuardChk_Proofs.idl_T VD0) (SatCoreDl_Proofs.idl_wthp sat VD0) (SatCoreDl_Proofs.idl_wthc VD0).
+Proof. exact SatCoreDl_Proofs.idl_guarded_contract. Qed.
+Print Assumptions C08_idl_guarded_theory_meets_the_contract.
+
+Theorem C08_pop_after_assume_restores_sat_idl_guarded :
+  forall (sat : bool) (VD0 : list (nat * Dl.cstr Z)) sort, sort_contract sort -> forall FUEL ops w0,
+  run_ok sort (SatCoreDl_Proofs.idl_wthp sat VD0) (SatCoreDl_Proofs.idl_wthc VD0) (SatCoreDl_Proofs.idl_wpush VD0) (SatCoreDl_Proofs.idl_wpop sat VD0) FUEL ops (init w0) = true ->
+  ub (run sort (SatCoreDl_Proofs.idl_wthp sat VD0) (SatCoreDl_Proofs.idl_wthc VD0) (SatCoreDl_Proofs.idl_wpush VD0) (SatCoreDl_Proofs.idl_wpop sat VD0) FUEL ops (init w0)) = false ->
+  forall p s', pre (run sort (SatCoreDl_Proofs.idl_wthp sat VD0) (SatCoreDl_Proofs.idl_wthc VD0) (SatCoreDl_Proofs.idl_wpush VD0) (SatCoreDl_Proofs.idl_wpop sat VD0) FUEL ops (init w0)) (OAssume p) = true ->
+  assume sort (SatCoreDl_Proofs.idl_wthp sat VD0) (SatCoreDl_Proofs.idl_wthc VD0) (SatCoreDl_Proofs.idl_wpush VD0) (SatCoreDl_Proofs.idl_wpop sat VD0) FUEL
+    (run sort (SatCoreDl_Proofs.idl_wthp sat VD0) (SatCoreDl_Proofs.idl_wthc VD0) (SatCoreDl_Proofs.idl_wpush VD0) (SatCoreDl_Proofs.idl_wpop sat VD0) FUEL ops (init w0)) p = (s', RTrue) ->
+  log s' = log (run sort (SatCoreDl_Proofs.idl_wthp sat VD0) (SatCoreDl_Proofs.idl_wthc VD0) (SatCoreDl_Proofs.idl_wpush VD0) (SatCoreDl_Proofs.idl_wpop sat VD0) FUEL ops (init w0)) ->
+  restored _ (fun w => DlAdapter.th_part Z (proj1_sig w))
+    (run sort (SatCoreDl_Proofs.idl_wthp sat VD0) (SatCoreDl_Proofs.idl_wthc VD0) (SatCoreDl_Proofs.idl_wpush VD0) (SatCoreDl_Proofs.idl_wpop sat VD0) FUEL ops (init w0))
+    (pop (SatCoreDl_Proofs.idl_wpop sat VD0) s').
+Proof. exact SatCoreDl_Proofs.idl_guarded_pop_assume. Qed.
+Print Assumptions C08_pop_after_assume_restores_sat_idl_guarded.
+
+(* the guarded network on the constraints of C08_sat_idl_example: the test succeeds (the decision tightens dist(1,2) to 5),
+   the hypotheses are met, the pop gives the theory part back *)
+Definition ex_idl_ts : Dl.state Z :=
+  Dl.run Z (DlDom.idl_dom false) (DlInst.idl_init false 5)
+    [Dl.ONewVar Z; Dl.ONewVar Z; Dl.ONewDistance Z 1 2 5%Z; Dl.ONewDistance Z 2 1 (-3)%Z].
+Lemma ex_idl_K : DlGuardChk_Proofs.KI Z (Dl.var_dists ex_idl_ts) ex_idl_ts.
+Proof.
+  split; [| reflexivity].
+  apply (DlAdapter_Proofs.good_th_inv DlIdl_Proofs.Zog Z (DlDom.idl_dom false) (DlIdl_Proofs.idl_spec false)).
+  apply (DlHist_Proofs.history_good DlIdl_Proofs.Zog Z (DlDom.idl_dom false) (DlIdl_Proofs.idl_spec false) 5);
+    [auto with arith | vm_compute; repeat split; try reflexivity; try discriminate; auto with arith | vm_compute; reflexivity | vm_compute; reflexivity].
+Qed.
+Example C08_sat_idl_guarded_example :
+  let VD0 := Dl.var_dists ex_idl_ts in
+  let w0 : WS (DlGuardChk_Proofs.KI Z VD0) := exist _ ex_idl_ts ex_idl_K in
+  let wp := SatCoreDl_Proofs.idl_wthp false VD0 in let wc := SatCoreDl_Proofs.idl_wthc VD0 in
+  let wpush := SatCoreDl_Proofs.idl_wpush VD0 in let wpop := SatCoreDl_Proofs.idl_wpop false VD0 in
+  let s := run (@isort lit) wp wc wpush wpop 100 [ONewVar; ONewVar] (init w0) in
+  let s' := fst (assume (@isort lit) wp wc wpush wpop 100 s (1, true)) in
+  run_ok (@isort lit) wp wc wpush wpop 100 [ONewVar; ONewVar] (init w0) = true /\ ub s = false /\
+  pre s (OAssume (1, true)) = true /\ snd (assume (@isort lit) wp wc wpush wpop 100 s (1, true)) = RTrue /\ log s' = log s /\
+  DlGuard.idl_gp false (DlAdapter.dl_thpush Z (proj1_sig (thst s))) [LF; LT; LU] 1 (1, true) = true /\
+  Dl.dget Z (DlDom.idl_dom false) (proj1_sig (thst s)) 1 2 = DlDom.INF /\ Dl.dget Z (DlDom.idl_dom false) (proj1_sig (thst s')) 1 2 = 5%Z /\
+  DlAdapter.th_part Z (proj1_sig (thst (pop wpop s'))) = DlAdapter.th_part Z (proj1_sig (thst s)).
+Proof. vm_compute. repeat split; reflexivity. Qed.
+Print Assumptions C08_sat_idl_guarded_example.
